@@ -118,6 +118,9 @@ pub fn check_case(c: &Case, acc: &mut Acc) -> f64 {
     let t0 = thread_cpu_s();
     let r = guard(|| job.run());
     let dt = thread_cpu_s() - t0;
+    // slowest surviving member per family: shows the margin to the CPU limit
+    let fam_head = c.family.split('|').take(2).collect::<Vec<_>>().join("|");
+    acc.max(&format!("max_ms {}", fam_head), (dt * 1000.0) as u64);
     match r {
         Err(p) => {
             acc.violation(Violation {
@@ -673,6 +676,11 @@ impl Spaces {
 /// time-growth oracle along one nesting family (run inside one worker so the timings are comparable)
 fn check_growth(acc: &mut Acc) {
     for (name, g, max) in nesting_families() {
+        // the *output* of these two families doubles with every level (each level mentions the previous one twice),
+        // so no preprocessor can handle them in polynomial time: they stay in the no-panic space only
+        if name == "macro-nest" || name == "macro-fn-nest" {
+            continue;
+        }
         let mut times: Vec<(usize, f64)> = Vec::new();
         for n in 1..=max {
             let mut c = Case::simple(name, g(n), 0);
